@@ -1263,6 +1263,48 @@ impl<'r> G<'r> {
 
     /// further module items of A.1.4 / A.3 / A.2
     fn item_extra(&mut self, names: &mut Vec<String>, params: &mut Vec<String>, kind: &str) {
+        if kind == "module" && names.len() >= 2 && self.r.chance(1, 6) {
+            // A.4.1.4 checker_instantiation: `id id ( ... )` whose connections include a sequence / property
+            // expression can only be a checker instantiation
+            self.cnt("checker_instantiation");
+            let c = self.fresh(false);
+            let inst = self.fresh(false);
+            self.id(&c);
+            self.fact("CheckerInstantiation", &c);
+            self.decl(&inst, "inst");
+            self.sym("(");
+            let n = self.r.range(0, 6);
+            for _ in 0..n {
+                let a = self.r.pick(names).clone();
+                self.id(&a);
+                self.sym(",");
+            }
+            let (a, b) = (self.r.pick(names).clone(), self.r.pick(names).clone());
+            match self.r.below(3) {
+                0 => {
+                    self.sym("(");
+                    self.id(&a);
+                    self.sym("##");
+                    self.num("1");
+                    self.id(&b);
+                    self.sym(")");
+                }
+                1 => {
+                    self.id(&a);
+                    self.sym("##");
+                    self.num("2");
+                    self.id(&b);
+                }
+                _ => {
+                    self.id(&a);
+                    self.sym("|->");
+                    self.id(&b);
+                }
+            }
+            self.sym(")");
+            self.sym(";");
+            return;
+        }
         match self.r.below(8) {
             0 => {
                 self.cnt("enum_var");
